@@ -65,10 +65,8 @@ def compress(data, comp):
     return gzip.compress(data[:cut]) + gzip.compress(data[cut:2 * cut]) + gzip.compress(data[2 * cut:])
 
 
-_FDIR = os.path.join(os.path.dirname(os.path.dirname(os.path.abspath(__file__))), 'scratch', f'c06_files_{os.getpid()}')
-os.makedirs(_FDIR, exist_ok=True)
-import atexit, shutil
-atexit.register(lambda: shutil.rmtree(_FDIR, ignore_errors=True))
+from xh import scratchdir
+_FDIR = scratchdir.fresh('c06_files')
 
 
 def file_signature(content, name):
